@@ -220,6 +220,7 @@ fn special_primaries() -> Vec<String> {
         v.push(format!("-name {a}"));
     }
     v.push("-fprint -o".into());
+    v.push("nope".into());
     v.push("-path -a".into());
     v.push("-xattr-match -o -a".into());
     v
